@@ -23,7 +23,8 @@ EXPLANATION = (
     " (R11) the collector's handler table (shared with C07.R1): a marker it cannot list / stat / read keeps protection in force or aborts."
     ' (R12) who-may-delete census (shared with C09.R3); (R13) every data-file production site is dominated by _register_inflight for the same path (shared with C06.R10).'
     ' (R14) the manifest parsers drop no entry (shared with C14.R7).'
-    " (R18) the marker abandonment window is never derived: call sites of collect / _load_inflight_protection omit it, name DEFAULT_INFLIGHT_TIMEOUT_MS or pass on a same-default parameter; (R19) no handler on the collector's read path (metadata resolution, manifest readers, backends) completes normally.")
+    " (R18) the marker abandonment window is never derived: call sites of collect / _load_inflight_protection omit it, name DEFAULT_INFLIGHT_TIMEOUT_MS or pass on a same-default parameter; (R19) no handler on the collector's read path (metadata resolution, manifest readers, backends) completes normally."
+    ' (R20) recovery orders versions as integers; (R21) the metadata decoder reads every written key strictly; R18 also requires DEFAULT_INFLIGHT_TIMEOUT_MS to be a literal number of milliseconds >= the default grace period; R3 reads the keep-set union through locals, a.union(b, c) and in-place update.')
 NOT_DECIDED = ("histories x location spellings at run time; that orphans are in fact removed; grace-period arithmetic")
 
 GC = "garbage_collector.GarbageCollector"
@@ -74,6 +75,12 @@ def check(ctx: Ctx) -> None:
     from .c14 import READ_MODULES, r1 as c14_r1
     c14_r1(ctx, "C05.R19", [ctx.fn("garbage_collector.GarbageCollector.collect")], READ_MODULES + ("storage_backend", "s3_consistency"),
            "collector's inputs: every handler in a function GarbageCollector.collect reaches (outside the collector itself)", 10, 12)
+    # the collector computes reachability from the version recovery resolves: a lexicographic 'latest' (v9 over v12) makes every later snapshot's files unreachable
+    from .c10 import r11 as c10_r11
+    c10_r11(ctx, "C05.R20")
+    # reachability is computed from the decoded metadata: a lenient decoder hides retained snapshots
+    from .c14 import metadata_reader_is_strict
+    metadata_reader_is_strict(ctx, "C05.R21")
 
 
 def abandonment_window_not_derived(ctx: Ctx, rid: str = "C05.R18") -> None:
@@ -128,6 +135,22 @@ def abandonment_window_not_derived(ctx: Ctx, rid: str = "C05.R18") -> None:
         if t.name == "collect":
             ctx.ob(rid, t, "collect()'s own default is the design constant", None, is_const(par.default),
                    f"default of `{pn}`: {norm_text(par.default) if par.default is not None else None}", text="default")
+            # ... and the constant IS a constant: an integer literal expression of at least the default grace period, in
+            # milliseconds (not an environment read, not a value in seconds)
+            cdef = t.module.consts.get("DEFAULT_INFLIGHT_TIMEOUT_MS")
+            val = None
+            try:
+                if cdef is not None and all(isinstance(x, (ast.Constant, ast.BinOp, ast.Mult, ast.Add, ast.UnaryOp, ast.USub, ast.Load, ast.Pow)) for x in ast.walk(cdef)):
+                    val = eval(compile(ast.Expression(body=cdef), "<const>", "eval"), {"__builtins__": {}}, {})  # arithmetic on literals only
+            except Exception:
+                val = None
+            gdef = next((p_.default for p_ in t.params if "grace" in p_.name), None)
+            gval = gdef.value if isinstance(gdef, ast.Constant) and isinstance(gdef.value, int) else 3600000
+            okv = isinstance(val, int) and val >= gval
+            ctx.ob(rid, t, "DEFAULT_INFLIGHT_TIMEOUT_MS is a literal number of milliseconds >= the default grace period", None, okv,
+                   f"value: {val if val is not None else norm_text(cdef)[:60] if cdef is not None else None}; default grace period: {gval} ms"
+                   + ("" if okv else " - a window read from the environment / expressed in seconds strips the markers of transactions "
+                      "that are still running"), text="const")
         for caller, n in ctx.eff.call_sites.get(t.qname, []):
             if not isinstance(n.ast, ast.Call):
                 continue
